@@ -137,6 +137,31 @@ func Known(id string) bool {
 	return false
 }
 func Symbolic() bool { return false }
+
+// Non-forking boolean connectives and byte-string predicates (the engine builds one SMT term instead of branching).
+func And(a, b bool) bool     { return a && b }
+func Or(a, b bool) bool      { return a || b }
+func Not(a bool) bool        { return !a }
+func Implies(a, b bool) bool { return !a || b }
+func BytesEqual(a, b []byte) bool {
+	if len(a) != len(b) {
+		return false
+	}
+	for i := range a {
+		if a[i] != b[i] {
+			return false
+		}
+	}
+	return true
+}
+func BytesLess(a, b []byte) bool {
+	for i := 0; i < len(a) && i < len(b); i++ {
+		if a[i] != b[i] {
+			return a[i] < b[i]
+		}
+	}
+	return len(a) < len(b)
+}
 func Thorough() bool { return cur.Thorough }
 func Logf(format string, a ...interface{}) {
 	if os.Getenv("VERIF_VERBOSE") != "" {
